@@ -7,6 +7,7 @@ import (
 	"crypto/sha256"
 	"encoding/hex"
 	"fmt"
+	goparser "go/parser"
 	"go/token"
 	"go/types"
 	"os"
@@ -105,7 +106,7 @@ func Load(repoDir string, overlayDirs map[string]string) (*Engine, error) {
 		var gen []byte
 		if src, err := os.ReadFile(filepath.Join(repoDir, "grammar", "grammar.peg")); err == nil {
 			if g, perr := peg.Parse(string(src)); perr == nil {
-				gen = []byte(g.GoSource())
+				gen = []byte(g.GoSource(importsOf(filepath.Join(repoDir, "grammar", "grammar.go"))))
 			} else {
 				gen = []byte("package grammar\n\n// grammar.peg could not be read: " + strings.ReplaceAll(perr.Error(), "\n", " ") + "\nvar pegRules []*pegRule = nil\nvar pegReadError = " + fmt.Sprintf("%q", perr.Error()) + "\n")
 			}
@@ -685,4 +686,30 @@ func shortTrace(t []int32) []int32 {
 		return t[:40]
 	}
 	return t
+}
+
+// importsOf lists the imports of a Go file with one exported identifier each
+// (known for the packages the generated parser uses), so that the generated
+// pegspec file can import the same packages as grammar.go.
+func importsOf(file string) map[string]string {
+	known := map[string]string{
+		"bytes": "NewBuffer", "errors": "New", "fmt": "Sprintf", "io": "EOF", "math": "MaxInt64", "os": "Args", "sort": "Strings",
+		"strconv": "Itoa", "strings": "Join", "sync": "NewCond", "unicode": "IsLetter", "unicode/utf8": "RuneError", "regexp": "MustCompile",
+		"github.com/mitchellh/pointerstructure": "Parse", "reflect": "TypeOf", "time": "Now", "encoding/json": "Marshal", "path": "Base", "path/filepath": "Base",
+	}
+	out := map[string]string{}
+	f, err := goparser.ParseFile(token.NewFileSet(), file, nil, goparser.ImportsOnly)
+	if err != nil {
+		return nil
+	}
+	for _, im := range f.Imports {
+		p := strings.Trim(im.Path.Value, "\"")
+		if im.Name != nil {
+			continue // renamed / blank imports are not mirrored
+		}
+		if id, ok := known[p]; ok {
+			out[p] = id
+		}
+	}
+	return out
 }
